@@ -4,6 +4,7 @@ import (
 	"bytes"
 	"errors"
 	"fmt"
+	"io"
 	"strings"
 
 	"github.com/osteele/liquid"
@@ -141,6 +142,7 @@ type faultWriter struct {
 	accept   int  // bytes accepted of the failing call
 	nilErr   bool // short write without an error (contract violation)
 	forever  bool
+	errKind  int // which error value the writer returns (c20Errs)
 	calls    int
 	failedAt int // call index of the first failure, -1 before
 	after    int // Write calls after the first failure
@@ -170,13 +172,18 @@ func (w *faultWriter) Write(b []byte) (int, error) {
 		if w.nilErr {
 			return n, nil
 		}
-		return n, errC20
+		return n, c20Errs[w.errKind]
 	}
 	w.got.Write(b)
 	return len(b), nil
 }
 
+// the error values a failing writer may return: the library must carry ANY of them back - in particular the
+// standard ones that mean "I accepted only part of it" or "closed", which it has no business interpreting
+var c20Errs = []error{errC20, io.ErrShortWrite, io.EOF, io.ErrClosedPipe, fmt.Errorf("disk full: %w", errC20)}
+
 type c20Case struct {
+	errKind int
 	t       int
 	k       int
 	accept  int
@@ -215,9 +222,9 @@ func c20Build(tier string) []c20Case {
 			accepts = append(accepts, 0)
 			if t >= len(c20Templates) {
 				// generated skeletons: the plain failure is enough at every index
-				out = append(out, c20Case{t, k, 0, false, true, 0}, c20Case{t, k, 0, false, false, 1})
+				out = append(out, c20Case{0, t, k, 0, false, true, 0}, c20Case{0, t, k, 0, false, false, 1})
 				if L > 1 {
-					out = append(out, c20Case{t, k, L / 2, false, true, 0})
+					out = append(out, c20Case{0, t, k, L / 2, false, true, 0})
 				}
 				continue
 			}
@@ -231,14 +238,22 @@ func c20Build(tier string) []c20Case {
 			for _, a := range accepts {
 				for _, forever := range []bool{false, true} {
 					for entry := 0; entry < 2; entry++ {
-						out = append(out, c20Case{t, k, a, false, forever, entry})
+						out = append(out, c20Case{0, t, k, a, false, forever, entry})
 					}
 				}
 			}
 			// contract-violating short writes (totality only)
 			for _, a := range []int{0, L / 2} {
 				if a < L {
-					out = append(out, c20Case{t, k, a, true, false, 0})
+					out = append(out, c20Case{0, t, k, a, true, false, 0})
+				}
+			}
+			// the other error values, failing once and forever, accepting nothing, one byte or half
+			for ek := 1; ek < len(c20Errs); ek++ {
+				for _, a := range []int{0, 1, L / 2} {
+					if a < L || a == 0 {
+						out = append(out, c20Case{ek, t, k, a, false, false, 0}, c20Case{ek, t, k, a, false, true, 1})
+					}
 				}
 			}
 		}
@@ -252,10 +267,10 @@ func c20Families(tier string) []explore.Family {
 	return []explore.Family{{Name: "fault-points", Count: int64(len(cases)), Run: func(i int64, r *explore.Rec) {
 		c := cases[i]
 		src := c20All[c.t]
-		fw := &faultWriter{k: c.k, accept: c.accept, nilErr: c.nilErr, forever: c.forever, failedAt: -1}
+		fw := &faultWriter{k: c.k, accept: c.accept, nilErr: c.nilErr, forever: c.forever, errKind: c.errKind, failedAt: -1}
 		desc := func() any {
 			return map[string]any{"template": trunc80(src), "failing_write_call": c.k, "bytes_accepted_of_that_call": c.accept, "short_write_without_error": c.nilErr,
-				"fail_forever": c.forever, "entry": []string{"FRender", "ParseAndFRender"}[c.entry]}
+				"fail_forever": c.forever, "writer_error": c20Errs[c.errKind].Error(), "entry": []string{"FRender", "ParseAndFRender"}[c.entry]}
 		}
 		r.Eval()
 		var err liquid.SourceError
@@ -293,7 +308,7 @@ func c20Families(tier string) []explore.Family {
 			r.Violation("success-reported", desc(), "a non-nil SourceError", "nil (success)")
 			return
 		}
-		if !reaches(err.Cause(), func(e error) bool { return e == errC20 }) {
+		if !reaches(err.Cause(), func(e error) bool { return e == c20Errs[c.errKind] }) {
 			r.Violation("cause-lost", desc(), "Cause() chain reaches the writer's error", fmt.Sprintf("%v (cause %#v)", safeErr(err), err.Cause()))
 		}
 		if !strings.HasPrefix(c20.clean[c.t], string(fw.before)) {
@@ -318,7 +333,7 @@ func init() {
 	explore.Register(&explore.Prop{
 		ID:    "C20",
 		Level: "fault_enumeration",
-		Rule: "every subset of hyphen positions of 6 block skeletons (if, for, raw inside if, capture, unless/else, tablerow: ~1000 templates) and 42 templates (eight with loops whose iterations end by break or continue; four of them with 100..600 writes or a 70 KB write) covering every tag (incl. tablerow, include, capture, nested loops, cycle, registered tag and block), trim-marker placements, empty output and long text; a fault-free render records the W Write calls and their sizes; then for EVERY k in 0..W-1 the writer fails on call k accepting 0 bytes or a strict prefix (all prefix lengths for calls <=8 bytes (quick) / <=64 (thorough), else 1, len/2, len-1), failing once or forever, through FRender and ParseAndFRender; plus short writes with a nil error (totality only); " +
+		Rule: "every subset of hyphen positions of 6 block skeletons (if, for, raw inside if, capture, unless/else, tablerow: ~1000 templates) and 42 templates (eight with loops whose iterations end by break or continue; four of them with 100..600 writes or a 70 KB write) covering every tag (incl. tablerow, include, capture, nested loops, cycle, registered tag and block), trim-marker placements, empty output and long text; a fault-free render records the W Write calls and their sizes; then for EVERY k in 0..W-1 the writer fails on call k accepting 0 bytes or a strict prefix (all prefix lengths for calls <=8 bytes (quick) / <=64 (thorough), else 1, len/2, len-1), failing once or forever, through FRender and ParseAndFRender, returning a sentinel error - and, for the hand-written templates, io.ErrShortWrite, io.EOF, io.ErrClosedPipe and a wrapping error as well; plus short writes with a nil error (totality only); " +
 			"class = (template, fault kind, partial accept); distinct_nontrivial counts distinct classes",
 		Assumptions: []string{"a writer that returns n < len(p) with a nil error violates io.Writer; only absence of a panic is required there"},
 		Setup:       func(tier string) { c20.eng = c20Engine(); c20Build(tier) },
